@@ -16,10 +16,11 @@ A_TOK = ['\\begin{e}', '\\end{e}', '\\begin{f}', '\\end{f}', '\\begin{verbatim}'
          ' ', 'a', '.', '(', '|', '\\left', '\\left(', '\\big.', '\\cup', '\\textbf{', '\\label{', '\\section{',
          '\\def\\x{', '\\newcommand', '\\begin', '\\end',
          # environment names that are not a single word
-         '\\begin{ }', '\\end{ }', '\\begin{\\a }', '\\end{\\a }']
+         '\\begin{ }', '\\end{ }', '\\begin{\\a }', '\\end{\\a }', '\r', '\\section{a}[b]']
 A_TOK_CORE = ['\\begin{e}', '\\end{e}', '\\end{f}', '\\begin{verbatim}', '\\end{verbatim}', '\\begin{equation}',
               '\\begin{itemize}', '\\end{itemize}', '\\item', '\\x', '\\x{', '\\x[', '{', '}', '[', ']', '$', '$$',
-              '\\(', '\\]', '\\\\', '%', '\n', ' ', 'a', '\\left(', '\\textbf{', '\\newcommand', '\\begin', '\\end']
+              '\\(', '\\]', '\\\\', '%', '\n', ' ', 'a', '\\left(', '\\textbf{', '\\newcommand', '\\begin', '\\end', '\r',
+              '\\section{a}[b]']
 
 DOCUMENTED_ASSERTS = ('Begin command must be followed by an env name.', 'invalid in math mode')
 
